@@ -6,6 +6,7 @@
 (*   P.vals[l][k]  is an entry:                                                *)
 (*     [k |-> "null"] | [k |-> "group"]                                        *)
 (*     [k |-> "val", v |-> pieces]                                             *)
+(*     [k |-> "lit", ty, sym, disp]   a JSON number / boolean: literal type, lexeme, how it is displayed *)
 (*     [k |-> "ranges",  ty, ck, b |-> sequence of [alts, v |-> pieces]]       *)
 (*     [k |-> "plurals", ty, ck, forms |-> record form -> pieces]              *)
 (*   a key absent from a locale is simply not in DOMAIN P.vals[l].             *)
@@ -93,6 +94,7 @@ RKey(P, lr, l, k, seen) ==
          ELSE LET e == P.vals[src][k]
                   sn == seen \cup {<<src, k>>} IN
               IF e.k = "group" THEN Bad("group")
+              ELSE IF e.k = "lit" THEN Good(<<Text(e.disp)>>)        \* a number / boolean literal key shows as its text
               ELSE IF e.k = "val" THEN RPieces(P, lr, src, e.v, sn)
               ELSE IF e.k = "ranges"
                    THEN LET rs == [i \in DOMAIN e.b |-> RPieces(P, lr, src, e.b[i].v, sn)] IN
